@@ -593,6 +593,8 @@ def _isinstance(I: Interp, v, c):
 
 
 def _len(I, v):
+    if hasattr(v, "pysym_len"):
+        return v.pysym_len(I)
     if isinstance(v, (tuple, list, str, bytes, dict, set, frozenset)):
         return len(v)
     if isinstance(v, SStr):
@@ -652,6 +654,14 @@ def install(I: Interp):
     X["max"] = Intrinsic("max", lambda I_, *a: max(*a))
     X["all"] = Intrinsic("all", lambda I_, it: all(truthy(I_, x) for x in iterate(I_, it)))
     X["any"] = Intrinsic("any", lambda I_, it: any(truthy(I_, x) for x in iterate(I_, it)))
+    def _from_bytes(I_, b, order="little"):
+        if order != "little":
+            raise Unsupported("big-endian from_bytes")
+        if isinstance(b, (bytes, bytearray)):
+            return int.from_bytes(b, "little")
+        return SInt(b.from_bytes_little())
+
+    X["int.from_bytes"] = Intrinsic("int.from_bytes", _from_bytes)
     X["set"] = Intrinsic("set", lambda I_, it=(): set(iterate(I_, it)))
     X["dict"] = Intrinsic("dict", lambda I_, it=(): dict(it) if isinstance(it, dict) else dict(iterate(I_, it)))
     import builtins as _b
